@@ -448,6 +448,7 @@ func main() {
 	cx := func(key string) callSpec { return callSpec{key: key, ex: true} }
 	ce := func(key string) callSpec { return callSpec{key: key, err: true} }
 	cp := func(key string) callSpec { return callSpec{key: key, pan: true} }
+	cxe := func(key string) callSpec { return callSpec{key: key, ex: true, err: true} }
 	sc = append(sc,
 		singleFlightScenario("sf-3x1-kkq", [][]callSpec{{c(k)}, {c(k)}, {c(q)}}),
 		singleFlightScenario("sf-3x1-kkk-doex", [][]callSpec{{cx(k)}, {cx(k)}, {cx(k)}}),
@@ -457,6 +458,10 @@ func main() {
 		singleFlightScenario("sf-2+1+1-kk,k,k", [][]callSpec{{c(k), c(k)}, {c(k)}, {cx(k)}}),
 		singleFlightScenario("sf-panic-2+1", [][]callSpec{{cp(k), c(k)}, {c(k)}}),
 		singleFlightScenario("sf-panic-1+2-doex", [][]callSpec{{cp(k)}, {cx(k), cx(k)}}),
+		// failing executions shared through DoEx: followers must receive the leader's error, not run fn themselves
+		singleFlightScenario("sf-err-3x1-kkk-doex", [][]callSpec{{cxe(k)}, {cxe(k)}, {cxe(k)}}),
+		singleFlightScenario("sf-err-1+1+1-doex-mixed", [][]callSpec{{cxe(k)}, {cx(k)}, {ce(k)}}),
+		singleFlightScenario("sf-err-2+1-doex", [][]callSpec{{cxe(k), cx(k)}, {cx(k)}}),
 		lockedCallsScenario("lc-3x1-kkq", [][]callSpec{{c(k)}, {c(k)}, {c(q)}}, false),
 		lockedCallsScenario("lc-3x1-kkk", [][]callSpec{{c(k)}, {ce(k)}, {c(k)}}, false),
 		lockedCallsScenario("lc-2+1-kk,k", [][]callSpec{{c(k), c(k)}, {c(k)}}, false),
